@@ -70,13 +70,14 @@ def owned(prop, o):
     return not safety
 
 
-def verify_functions(R, names, engine_opts=None):
+def verify_functions(R, names, engine_opts=None, mod=None, tag=None):
     """Generate obligations of each named contract; returns list of all obligations generated."""
     allobs = []
     for n in names:
         c = R.reg.REG[n]
-        ex = symex.Executor(R.mod, R.reg.REG, options=engine_opts)
-        R.ex = ex
+        ex = symex.Executor(mod or R.mod, R.reg.REG, options=engine_opts)
+        if mod is None:
+            R.ex = ex
         t1 = time.time()
         try:
             obs = ex.verify(c)
@@ -99,9 +100,12 @@ def verify_functions(R, names, engine_opts=None):
         fn = ex.lookup_fn(n)
         for o in obs:
             o.contract = c
-            o.fnobj = fn
+            o.fnobj = fn if tag is None else None      # no native replay for the cross-target pass
             o.observe = None
-        R.functions[n] = dict(paths=ex.paths_top, generated=len(obs), src='%s:%s' % (fn.src_file, fn.src_line),
+            if tag:
+                o.name = o.name + '@' + tag
+                o.info['target'] = tag
+        R.functions[n if tag is None else '[%s] %s' % (tag, n)] = dict(paths=ex.paths_top, generated=len(obs), src='%s:%s' % (fn.src_file, fn.src_line),
                               gen_s=round(time.time() - t1, 2))
         R.covers.extend(ex.covers)
         # observation terms for replay of entry-state counterexamples
@@ -202,9 +206,12 @@ def triage(R):
             rep['refuter_found'] = R.refutation
             replayed = True
         rep['replayed_on_real_code'] = replayed
-        if key.split('#case-')[0] in kmap:
-            if not any(k is kmap[key.split('#case-')[0]] for k, _ in R.known_hits):
-                R.known_hits.append((kmap[key.split('#case-')[0]], rep))
+        kk = key.split('#case-')[0]
+        if kk not in kmap and kk.endswith('@avr') and kk[:-4] in kmap:
+            kk = kk[:-4]          # the same obligation under the 16-bit data model: one finding
+        if kk in kmap:
+            if not any(k is kmap[kk] for k, _ in R.known_hits):
+                R.known_hits.append((kmap[kk], rep))
             continue
         base = o.name.split('#case-')[0]
         if any(v['key'] == base for v in R.violations):
